@@ -693,6 +693,8 @@ type c20NamedSub struct{ *c20Sub }
 
 func (s c20NamedSub) String() string { return "named-scripted-subscriber" }
 
+var c20SlowWaits int // subscriber/router cases whose counters never reached the expected total
+
 type c20SubCase struct {
 	Stack    [][]interface{} `json:"stack"`
 	Heap     [][]interface{} `json:"heap"` // [rest, trail]
@@ -867,14 +869,22 @@ func (e *c20Env) runSubCase(rng *rand.Rand) *c20SubCase {
 	inner.mu.Unlock()
 	keys := []string{"handler_name", "subscriber_name", "acked"}
 	tab := map[string]int{}
-	deadline := time.Now().Add(5 * time.Second)
+	wait := 5 * time.Second
+	if c20SlowWaits >= 3 { // fail fast: increments are evidently missing, do not wait 5 s per case
+		wait = 300 * time.Millisecond
+	}
+	deadline := time.Now().Add(wait)
 	for {
 		tab, err = c20Gather(reg, "subscriber_messages_received_total", keys)
 		if err != nil {
 			c.Problem = "gather: " + err.Error()
 			return c
 		}
-		if c20Total(tab) >= c.Expected || time.Now().After(deadline) {
+		if c20Total(tab) >= c.Expected {
+			break
+		}
+		if time.Now().After(deadline) {
+			c20SlowWaits++
 			break
 		}
 		time.Sleep(2 * time.Millisecond)
@@ -1042,10 +1052,18 @@ func (e *c20Env) runMwRouter(rng *rand.Rand, layers int) *c20MwCase {
 		}
 	}
 	if c.Problem == "" && layers > 0 {
-		deadline := time.Now().Add(5 * time.Second)
-		for time.Now().Before(deadline) {
+		wait := 5 * time.Second
+		if c20SlowWaits >= 3 {
+			wait = 300 * time.Millisecond
+		}
+		deadline := time.Now().Add(wait)
+		for {
 			st, _ := c20Gather(reg, "r_subscriber_messages_received_total", []string{"acked"})
 			if c20Total(st) >= len(c.Msgs) {
+				break
+			}
+			if time.Now().After(deadline) {
+				c20SlowWaits++
 				break
 			}
 			time.Sleep(2 * time.Millisecond)
